@@ -5,7 +5,7 @@
    This file only restates the property theorems; proofs are in frame/*Proofs.v. *)
 From Coq Require Import List NArith ZArith Bool.
 From JV Require Import Bytes FrameBase FrameBaseProofs FrameSpec Split SplitProofs Hdr HdrProofs
-  JsonScan JsonScanProofs RawJson RawJsonProofs Direct DirectProofs.
+  JsonScan JsonScanProofs RawJson RawJsonProofs Direct DirectProofs DirectMore FrameMore.
 Import ListNotations.
 Local Open Scope N_scope.
 
@@ -67,3 +67,61 @@ Print Assumptions c11_direct.
 Theorem c11_fuel_split : forall b s, clean (Split.recv_all cfg_fixed b s).
 Proof. exact (split_recv_all_clean cfg_fixed). Qed.
 Print Assumptions c11_fuel_split.
+
+(* Direct under ARBITRARY interleavings of Send, Recv and Close ([run st ops]: the final state and
+   the records received; undefined only when an operation would never return - Recv on an empty
+   open direction, a second Close): at every moment the records received so far followed by the
+   records still queued are exactly the records accepted so far (those sent before Close), in
+   the order sent *)
+Theorem c11_direct_interleaved : forall ops st st' got,
+  DirectMore.run st ops = Some (st', got) ->
+  got ++ dqueue st' = dqueue st ++ accepted (dclosed st) ops.
+Proof. exact direct_interleaved. Qed.
+Print Assumptions c11_direct_interleaved.
+
+(* from the initial state and before any Close, "accepted" is every record handed to Send *)
+Theorem c11_direct_interleaved_open : forall ops st' got,
+  ~ In OClose ops -> DirectMore.run dinit ops = Some (st', got) -> got ++ dqueue st' = sends ops.
+Proof. exact direct_interleaved_open. Qed.
+Print Assumptions c11_direct_interleaved_open.
+
+(* "so far": every prefix of a run is a run (so the invariant above holds after each operation) *)
+Theorem c11_direct_run_prefix : forall ops1 ops2 st st' got,
+  DirectMore.run st (ops1 ++ ops2) = Some (st', got) ->
+  exists st1 got1 got2, DirectMore.run st ops1 = Some (st1, got1) /\
+                        DirectMore.run st1 ops2 = Some (st', got2) /\ got = got1 ++ got2.
+Proof. exact run_prefix. Qed.
+Print Assumptions c11_direct_run_prefix.
+
+(* once a run has reached a closed and drained direction, EVERY later Recv returns io.EOF and every
+   later Send its error, for every continuation (the state no longer changes) *)
+Theorem c11_direct_eof_forever : forall ops1 ops2 st st1 xs,
+  run_trace st ops1 = Some (st1, xs) -> dclosed st1 = true -> dqueue st1 = [] ->
+  ~ In OClose ops2 ->
+  run_trace st (ops1 ++ ops2) = Some (st1, xs ++ map after_eof ops2).
+Proof. exact direct_eof_forever. Qed.
+Print Assumptions c11_direct_eof_forever.
+
+(* after Close, Recv drains the queue in order and then returns io.EOF n times, for every n *)
+Theorem c11_direct_drain_then_eof : forall q n,
+  run_trace {| dqueue := q; dclosed := true |} (repeat ORecv (length q + n))
+  = Some ({| dqueue := []; dclosed := true |}, map RRecvd q ++ repeat REof n).
+Proof. exact direct_drain_then_eof. Qed.
+Print Assumptions c11_direct_drain_then_eof.
+
+(* rendezvous variant (Send enabled only when the queue is empty, as the unbuffered Go channel):
+   every such run is a run of the queue model, the same FIFO invariant holds, and at most one
+   record is ever in flight *)
+Theorem c11_direct_rendezvous : forall ops st' got,
+  run_rv dinit ops = Some (st', got) ->
+  DirectMore.run dinit ops = Some (st', got) /\
+  got ++ dqueue st' = accepted false ops /\
+  (length (dqueue st') <= 1)%nat.
+Proof. exact direct_rendezvous. Qed.
+Print Assumptions c11_direct_rendezvous.
+
+(* Split: the result of one Recv does not depend on the bufio window size k > 0 *)
+Theorem c11_split_window_indep : forall c b k s,
+  0 < k -> Split.recv_k c b k tt s = Split.recv c b tt s.
+Proof. exact split_window_indep. Qed.
+Print Assumptions c11_split_window_indep.
